@@ -1,5 +1,7 @@
 #include "../include/InputFunctions/DomainGeometry/czarnyGeometry.h"
 
+#include <stdexcept>
+
 CzarnyGeometry::CzarnyGeometry()
 {
     initializeGeometry();
@@ -16,5 +18,9 @@ CzarnyGeometry::CzarnyGeometry(const double& Rmax, const double& inverse_aspect_
 
 void CzarnyGeometry::initializeGeometry()
 {
+    /* The mapping divides by epsilon and scales y by e: both must be positive (epsilon < 2 for a real xi). */
+    if (!(inverse_aspect_ratio_epsilon > 0.0 && inverse_aspect_ratio_epsilon < 2.0) || !(ellipticity_e > 0.0)) {
+        throw std::invalid_argument("CzarnyGeometry requires 0 < inverse_aspect_ratio_epsilon < 2 and ellipticity_e > 0.");
+    }
     factor_xi = 1.0 / sqrt(1.0 - inverse_aspect_ratio_epsilon * inverse_aspect_ratio_epsilon / 4.0);
 }
